@@ -991,6 +991,7 @@ type ifFeatureEval struct {
 	stack    []bool
 	pos      int
 	lastErr  error
+	closed   bool // a ")" was read: unwind to the evaluation its "(" started
 }
 
 func (y *ifFeatureEval) eval(greedy bool) {
@@ -999,7 +1000,10 @@ func (y *ifFeatureEval) eval(greedy bool) {
 		switch tok {
 		case "(":
 			y.eval(false)
+			y.closed = false
 		case ")":
+			// ends every evaluation that was started inside this pair of parentheses
+			y.closed = true
 			return
 		case "and":
 			y.eval(true)
@@ -1016,7 +1020,7 @@ func (y *ifFeatureEval) eval(greedy bool) {
 			_, found := y.features[tok]
 			y.push(found)
 		}
-		if greedy {
+		if greedy || y.closed {
 			return
 		}
 	}
